@@ -664,7 +664,7 @@ def run(c):
                 klass = f.split(":")[0]
                 verdicts[klass] += 1
                 what = {
-                    "error-via-result-alias": "TypeInfo.error is not set on the error type of a function whose result type is named through a type alias / `use` (type_info_func only looks at a direct TypeDefKind::Result)",
+                    "error-via-result-alias": "TypeInfo.error is not set on the error type of a function whose result type is named through a type alias / `use` (repaired in /repo; see known_findings fixed: line)",
                 }.get(klass, "Types analysis violates the C28 specification: " + klass)
                 c.spec_violation(klass, what, {"wit": w, "detail": f, "impl": strip_impl(o)})
         c.cov["spec_verdicts_on_impl"] = dict(verdicts)
